@@ -522,7 +522,7 @@ type pkgObj struct {
 	Kind   string `json:"kind"`
 	Name   string `json:"name"`
 	Source string `json:"source"`
-	Custom bool   `json:"customName"` // seeded by "a user" under a name of their choosing
+	Custom bool   `json:"customName,omitempty"` // seeded by "a user" under a name of their choosing
 }
 
 func pkgsIn(s snap) []pkgObj {
